@@ -80,6 +80,12 @@ CLAIMS = {
         "technique": "contract-based deductive verification: VCs from go/ssa discharged by SMT",
         "design_ref": "DESIGN.md §6 C14",
     },
+    "C18": {
+        "level": "Proof, in abstract mode over go/ssa, that every error-returning call site of main, pkg/generator, pkg/schemas, pkg/codegen and internal/x/text propagates a non-nil error on every path (or reaches abort/os.Exit/panic), except the deliberate drops listed with a reason in the contract files; plus panic-freedom of listed helper functions under safety contracts (upperFirst total, lowerFirst under its precondition checked at its call site, stringSliceToStringMap).",
+        "note": "Termination and panics inside external decoders are not covered. One known finding (resolveRefs swallows resolveRef's error).",
+        "technique": "contract-based deductive verification: abstract-mode path obligations over go/ssa, safety obligations discharged by SMT, unit and end-to-end replay",
+        "design_ref": "DESIGN.md §6 C18",
+    },
 }
 
-NOT_APPLICABLE = {p: PENDING for p in ["C08", "C10", "C12", "C13", "C16", "C18", "C20"]}
+NOT_APPLICABLE = {p: PENDING for p in ["C08", "C10", "C12", "C13", "C16", "C20"]}
